@@ -1,4 +1,6 @@
 import Proofs.C06.Watch
+import Proofs.C06.Wire
+import Proofs.C06.Prefix
 /-!
 # C06 — a gossiping KV cluster converges after any loss, reordering or partition (property theorems)
 
@@ -122,6 +124,64 @@ theorem corrupt_state_noop {V R : Type} [MergeVal V] (dec : R → Option (Msg V)
     (raws : List R) (h : ∀ r ∈ raws, Malformed dec r) : receiveState dec cfg now nd raws = nd :=
   PfC06.corrupt_state_noop dec cfg now nd raws h
 
+/-! ### the receive paths on raw bytes (framing + `KeyValuePair` fields + codec lookup + value decoding)
+
+`unm` (protobuf unmarshal of one `KeyValuePair`) and `codecs` (registry: codec id ↦ value decoder) are
+arbitrary functions: the theorems hold whatever these libraries do with arbitrary bytes. The framing
+(`framesOf`: 4-byte big-endian length prefixes) is modelled and checked against the implementation on
+every corrupted / truncated / garbage full-state message of the correspondence run. -/
+section wire
+open Common
+variable {V : Type} [MergeVal V] (unm : Bytes → Option RawPair) (codecs : String → Option (Bytes → Option V))
+
+/-- **`MergeRemoteState` on ARBITRARY bytes** changes the node exactly by `mergeRemoteState` of the pairs
+that pass the whole validation, in order, up to the first frame that does not unmarshal — no other part
+of the byte stream has any effect on store, queues or watchers -/
+theorem state_bytes_only_merges (cfg : Cfg) (now : Int) (nd : Node V) (data : Bytes) :
+    mergeRemoteBytes unm codecs cfg now nd data =
+      mergeRemoteState cfg now nd (stateMsgs unm codecs (framesOf data).1) :=
+  PfC06.state_bytes_only_merges unm codecs cfg now nd data
+
+/-- every merged pair comes from a complete frame that unmarshals, has a non-empty key, a registered codec
+and a value that codec decodes -/
+theorem merged_pairs_valid (data : Bytes) (m : Msg V) (hm : m ∈ stateMsgs unm codecs (framesOf data).1) :
+    ∃ f ∈ (framesOf data).1, ∃ p, unm f = some p ∧ decodePair codecs p = some m ∧ m.key ≠ "" :=
+  stateMsgs_valid unm codecs _ m hm
+
+/-- bytes that contain no such pair (garbage, truncated header, unknown codecs, empty keys, undecodable
+values, …) leave the node untouched -/
+theorem state_bytes_noop (cfg : Cfg) (now : Int) (nd : Node V) (data : Bytes)
+    (h : stateMsgs unm codecs (framesOf data).1 = []) : mergeRemoteBytes unm codecs cfg now nd data = nd :=
+  PfC06.state_bytes_noop unm codecs cfg now nd data h
+
+/-- a full-state message cut at ANY byte merges a prefix of the pairs the complete message merges -/
+theorem truncated_state_prefix (data : Bytes) (k : Nat) :
+    stateMsgs unm codecs (framesOf (data.take k)).1 <+: stateMsgs unm codecs (framesOf data).1 :=
+  PfC06.truncated_state_prefix unm codecs data k
+
+/-- **`NotifyMsg` on ARBITRARY bytes**: nothing happens, or exactly one validated pair is merged -/
+theorem notify_bytes_only_merges (cfg : Cfg) (now : Int) (nd : Node V) (data : Bytes) :
+    notifyBytes unm codecs cfg now nd data = nd ∨
+    ∃ p m, unm data = some p ∧ decodePair codecs p = some m ∧ notifyBytes unm codecs cfg now nd data = deliver cfg now nd m :=
+  PfC06.notify_bytes_only_merges unm codecs cfg now nd data
+
+end wire
+
+-- non-vacuity of the framing: two frames (lengths 2 and 0), then an incomplete third one
+example : C06.framesOf [0, 0, 0, 2, 7, 8, 0, 0, 0, 0, 0, 0, 0, 5, 1] = ([[7, 8], []], false) := by decide
+example : C06.framesOf [0, 0, 0, 2, 7, 8, 0, 0, 0, 0] = ([[7, 8], []], true) := by decide
+-- a toy unmarshaller / codec: frame [k, v] is the pair (key "r" if k = 1 else "", value [v]); codec "c" decodes [v] with v ≠ 9
+def toyUnm : Common.Bytes → Option RawPair
+  | [k, v] => some { key := if k = 1 then "r" else "", codec := "c", value := [v] }
+  | _ => none
+def toyCodecs : String → Option (Common.Bytes → Option Desc)
+  | "c" => some fun b => match b with | [v] => if v = 9 then none else some [{ id := "a", ts := v.toNat }] | _ => none
+  | _ => none
+-- frames: valid pair, empty-key pair (skipped), undecodable value (skipped), valid pair, non-unmarshalling frame (stop), valid pair (never reached)
+example : (mergeRemoteBytes toyUnm toyCodecs {} 10 ({} : Node Desc)
+    [0,0,0,2,1,5, 0,0,0,2,0,6, 0,0,0,2,1,9, 0,0,0,2,1,7, 0,0,0,1,3, 0,0,0,2,1,8]).store.map (fun x => (x.1, x.2.val, x.2.version)) =
+    [("r", [{ id := "a", ts := 7 }], 2)] := by decide
+
 /-- only merges that changed the store enqueue a broadcast -/
 theorem no_gossip_without_change (hU : Univ U) {cfg : Cfg} (hcfg : cfg.lit = 0) {clock : Int} (now : Int) {nd : Node Desc}
     {m : Msg Desc} (hnd : GoodNode U clock nd) (hm : GoodMsg U clock m)
@@ -152,6 +212,54 @@ theorem watchers_caught_up_partial (hU : Univ U) (hT : TombClosed U) {cfg : Cfg}
     verOf nd.store w.key = seenOf w w.key ∧
     ∀ v, lookL w.last w.key = some v → ∃ e, getE nd.store w.key = some e ∧ v = removeTombstones none e.val :=
   caught_up (winv_run hU hT hcfg evs (inv_init n hclock) (winv_init n clock) hevs nd hnd) hq hn w hw hp
+
+/-! ### `WatchPrefix`: the bounded channel, exactly
+
+One watcher (`Watcher.notify`: non-blocking send on a channel of capacity `WatchPrefixBufferSize`, only
+keys with the prefix, DROP when full; `Watcher.run`: take the oldest notification, read the CURRENT value
+of that key, call `f`) against a trace `PEv` of version bumps and watcher runs (`pstep`, the node model
+applies `notify` to every watcher of the node on each change: `notifySync`). Ghost: `lost` = keys whose
+latest notification was dropped while the key was not queued; `consumed` = keys `f` was called for. -/
+
+/-- overflow or not: once the channel is empty, the watcher has seen the current version of every watched
+key that is not in `lost`, and the value `f` was last called with for it is the current value -/
+theorem prefix_caught_up (st : Store Desc) (p : Bool) (key : String) (cap : Nat) (evs : List PEv)
+    (hb : BumpOk (freshP st p key cap) evs) (hq : (prun (freshP st p key cap) evs).w.pending = []) (k : String)
+    (hm : (prun (freshP st p key cap) evs).w.matches k = true) (hk : k ∉ (prun (freshP st p key cap) evs).lost) :
+    verOf (prun (freshP st p key cap) evs).st k = seenOf (prun (freshP st p key cap) evs).w k ∧
+    ∀ v, lookL (prun (freshP st p key cap) evs).w.last k = some v →
+      ∃ e, getE (prun (freshP st p key cap) evs).st k = some e ∧ v = removeTombstones none e.val :=
+  PfC06.prefix_caught_up st p key cap evs hb hq k hm hk
+
+/-- if no notification is dropped for good (the channel had room, or the key was already queued) nothing is lost -/
+theorem prefix_nothing_lost (st : Store Desc) (p : Bool) (key : String) (cap : Nat) (evs : List PEv)
+    (h : NoDrop (freshP st p key cap) evs) : (prun (freshP st p key cap) evs).lost = [] :=
+  lost_nil_of_noDrop evs rfl h
+
+/-- without overflow every change is delivered, in order: callbacks so far followed by the channel
+content = the watched keys that changed, in the order of the changes -/
+theorem prefix_in_order (evs : List PEv) {s : PSt} (h : NoOverflow s evs) :
+    (prun s evs).consumed ++ (prun s evs).w.pending = s.consumed ++ s.w.pending ++ changedKeys s.w evs :=
+  prefix_fifo evs h
+
+/-- what the code does NOT guarantee (witness, capacity 1, prefix ""): `a` and `b` change while the watcher
+is not reading; the notification for `b` is dropped; after the watcher drained its channel it has seen
+`a` but never learns that `b` changed (version 2 vs. seen 1) — until `b` changes again -/
+theorem prefix_overflow_loses :
+    let e1 : Entry Desc := { val := [], version := 1 }
+    let e2 : Entry Desc := { val := [{ id := "x", ts := 5 }], version := 2 }
+    let s := prun (freshP [("a", e1), ("b", e1)] true "" 1) [.upd "a" e2, .upd "b" e2, .run]
+    s.w.pending = [] ∧ s.lost = ["b"] ∧ s.consumed = ["a"] ∧ seenOf s.w "a" = 2 ∧ seenOf s.w "b" = 1 ∧ verOf s.st "b" = 2 := by
+  decide +kernel
+
+/-- … and a later change of `b`, notified after the overflow ended, heals it -/
+theorem prefix_overflow_heals :
+    let e1 : Entry Desc := { val := [], version := 1 }
+    let e2 : Entry Desc := { val := [{ id := "x", ts := 5 }], version := 2 }
+    let e3 : Entry Desc := { val := [{ id := "x", ts := 6 }], version := 3 }
+    let s := prun (freshP [("a", e1), ("b", e1)] true "" 1) [.upd "a" e2, .upd "b" e2, .run, .upd "b" e3, .run]
+    s.w.pending = [] ∧ s.lost = [] ∧ s.consumed = ["a", "b"] ∧ lookL s.w.last "b" = some [{ id := "x", ts := 6 }] := by
+  decide +kernel
 
 /-- a pending watcher that runs is called with the current value (tombstones stripped) -/
 theorem watcher_run_current (nd : Node Desc) (w : Watcher Desc) (k : String) (rest : List String) (e : Entry Desc)
